@@ -179,7 +179,15 @@ func vWDrop(sc *serverConn)    { sc.vh.v.WDropped.Add(1) }
 func vWWritten(sc *serverConn) { sc.vh.v.WWritten.Add(1) }
 func vWLExit(sc *serverConn)   { sc.vh.v.WLExited.Store(true) }
 
+// VerifAccessHook, when set, receives every access to a variable the design
+// documents as owned by one goroutine or guarded by one lock: (variable, role of
+// the accessing goroutine and the locks it holds).
+var VerifAccessHook func(variable, role string)
+
 func vAccess(owner any, variable, role string) {
+	if f := VerifAccessHook; f != nil {
+		f(variable, role)
+	}
 	if sc, ok := owner.(*serverConn); ok && sc.vh.v != nil {
 		if f := sc.vh.v.OnAccess; f != nil {
 			f(variable, role)
